@@ -209,6 +209,17 @@ def extra(ctx):
   missing = [f'{h}:{v}' for h, vs in REQUIRED.items() if h != 'outcome' for v in vs if v not in ctx.hist.get(h, {})]
   if missing:
     raise InfraError(f'generator missed promised classes: {missing}')
+  export_stats(ctx)
+
+
+def export_stats(ctx):
+  """coverage of the batched refinement theorems (counted by compare())"""
+  for k, h in STATS.items():
+    for sub, n in h.items():
+      ctx.count(k, sub, n)
+  if not STATS.get('batched_theorem', {}).get('side-conditions hold'):
+    from harness.core import InfraError
+    raise InfraError('no generated case was inside the domain of the batched refinement theorems')
 
 
 def key_shapes(spec):
@@ -240,7 +251,8 @@ def run_impl(case):
   if obs.get('build') is None and 'make_error' not in obs and not obs.get('agg') and not obs.get('hang'):
     try:
       ref = L.reference(case)
-      obs['pyref'] = dict(out=ref['out'], err=list(ref['err']) if ref['err'] else None, logs=ref['logs'], exact=ref['exact'])
+      obs['pyref'] = dict(out=ref['out'], err=list(ref['err']) if ref['err'] else None, logs=ref['logs'], exact=ref['exact'],
+                          lenient=bool(ref.get('lenient')))
     except Exception as e:  # the reference itself must not crash
       obs['pyref'] = dict(crash=f'{type(e).__name__}: {e}')
   return obs
@@ -256,6 +268,43 @@ def model_obs(case, resps):
 
 def _multiset(xs):
   return sorted(jdump(x) for x in xs)
+
+
+# how often the batched refinement theorem (C08_refines_batched_partial / C12_skip_batched_partial) applied: filled by
+# compare() (main process), copied into the evidence by extra()
+STATS = {}
+
+
+def _stat(key, sub):
+  h = STATS.setdefault(key, {})
+  h[str(sub)] = h.get(str(sub), 0) + 1
+
+
+def compare_batched(impl, model):
+  """Chains with batched operators: the Lean reference `Ref.chainEventsG` (list-level, on `Rebatch.run/online`) against
+  the model of the code (an instance of C08_refines_batched_partial: must agree whenever the side conditions hold)
+  and against the independent Python reference."""
+  ref = impl.get('pyref') or {}
+  ok = bool(model.get('refb_ok'))
+  _stat('batched_theorem', 'side-conditions hold' if ok else 'outside (assign+batch, ragged / unreadable data, passed-on error)')
+  if not ok:
+    return None
+  undefined = ref.get('err') is not None and ref['err'][0] == 'undefined'
+  _stat('batched_theorem_outcome', ('error:' + str(model['refb_err'])) if model['refb_err'] else 'clean end')
+  if not undefined and 'crash' not in ref:
+    if model.get('out') != model['refb_out'] or model.get('err') != model['refb_err'] or model.get('cause') != model['refb_cause']:
+      return (f"Lean reference for batched chains differs from the Lean model of the code although the side conditions "
+              f"of C08_refines_batched_partial hold: {jdump(model['refb_out'])[:200]} / {jdump(model.get('out'))[:200]}")
+  if not undefined and 'crash' not in ref and ref.get('out') is not None and not ref.get('lenient'):
+    if ref['err'] is None and model['refb_err'] is None:
+      _stat('batched_theorem_pyref', 'compared')
+      if ref['out'] != model['refb_out']:
+        return f"reference interpreters differ on a batched chain: py {jdump(ref['out'])[:300]} / lean {jdump(model['refb_out'])[:300]}"
+    elif (ref['err'] is None) != (model['refb_err'] is None):
+      return f"reference interpreters differ on err (batched chain): py {ref['err']} / lean {model['refb_err']}"
+    elif model['refb_out'] != ref['out'][:len(model['refb_out'])]:
+      return 'Lean reference output before the error is not a prefix of the failure-free Python reference'
+  return None
 
 
 def compare(impl, model):
@@ -283,6 +332,10 @@ def compare(impl, model):
       return f"reference interpreters differ on err: py {ref['err']} / lean {model['ref_err']}"
     if ref['logs'] != model['ref_logs']:
       return 'reference interpreters differ on sink logs'
+  if 'refb_ok' in model:
+    d = compare_batched(impl, model)
+    if d is not None:
+      return d
   # the two formulations of the Lean reference (operator-major / record-major) agree on clean runs
   if 'ref_out' in model and model.get('ref_clean') and model['ref_err'] is None and model['ref2_err'] is None \
       and model['ref_out'] != model['ref2_out']:
@@ -378,6 +431,14 @@ def oracle(case, obs):
   threads = case.get('threads')
   rerr = ref['err']
   if rerr is not None and rerr[0] == 'undefined':
+    return None
+  if ref.get('lenient'):
+    # the reference left out records that could not enter a batched operator: binding only if the run ended silently
+    if obs['err'] is not None or rerr is not None or threads:
+      return None
+    if obs['out'] != ref['out']:
+      return (f"[lost] skipping on, the run ended without an error, but the output is not the reference over the elements "
+              f"that can be processed: {jdump(obs['out'])[:300]} != {jdump(ref['out'])[:300]}")
     return None
   if rerr is None:
     if obs['err'] is not None:
@@ -491,7 +552,20 @@ def finding(case, what):
     return 'F-C08-index0'
   if assign_misaligned(case):
     return 'F-C08-assign-rebatch'
+  if fnbatch_unreadable(case):
+    return 'F-C12-fnbatch-lost'
   return None
+
+
+def fnbatch_unreadable(case):
+  """skipping on, and a record that cannot enter an apply/select with fn_batch_size (inputs unreadable or not equally
+  long columns): the input class of finding F-C12-fnbatch-lost"""
+  if not case.get('ignore') or not any(sp['op'] in ('apply', 'select') and sp.get('fn_batch') for sp in case['specs']):
+    return False
+  try:
+    return bool(L.reference(case).get('fnbatch_skipped'))
+  except Exception:  # pylint: disable=broad-except
+    return False
 
 
 def neighbours(case, rng):
